@@ -289,7 +289,9 @@ def parse_witness(logpath):
     return out
 
 
-def build_goto(symtab, mangled, clibs, workdir, name):
+def build_goto(symtab, mangled, clibs, workdir, name, drop_bodies=()):
+    """drop_bodies: regexes over mangled names; matching functions get an empty body (nondet return, no side effects).
+    Used only for code whose effect is outside the property at hand (recorded with the harness)."""
     o = os.path.join(workdir, name + ".goto")
     lg = os.path.join(workdir, name + ".goto.log")
     steps = [
@@ -305,6 +307,22 @@ def build_goto(symtab, mangled, clibs, workdir, name):
             r = subprocess.run(s, stdout=fh, stderr=subprocess.STDOUT)
             if r.returncode != 0:
                 raise BuildError("%s failed for %s" % (s[0], name), lg)
+        if drop_bodies:
+            blob = open(o, "rb").read()
+            names = set()
+            for rx in drop_bodies:
+                names |= set(m.decode() for m in re.findall(rx.encode(), blob))
+            names = sorted(n for n in names if "." not in n)
+            fh.write("drop_bodies: %s\n" % names)
+            fh.flush()
+            if not names:
+                raise BuildError("drop_bodies matched no function for %s" % name, lg)
+            for n in names:
+                for s in (["goto-instrument", "--remove-function-body", n, o, o],
+                          ["goto-instrument", "--generate-function-body-options", "nondet-return", "--generate-function-body", re.escape(n), o, o]):
+                    r = subprocess.run(s, stdout=fh, stderr=subprocess.STDOUT)
+                    if r.returncode != 0:
+                        raise BuildError("%s failed for %s" % (s[0], name), lg)
     return o
 
 
@@ -325,7 +343,7 @@ def run_harness(h, symtab, mangled, clibs, workdir):
            "bounds": dict(h.bounds, unwind=h.unwind, unwindset=h.unwindset), "status": None,
            "failures": [], "covers": {}, "nprops": 0, "solver": h.solver}
     try:
-        goto = build_goto(symtab, mangled, clibs, workdir, h.name)
+        goto = build_goto(symtab, mangled, clibs, workdir, h.name, getattr(h, 'drop_bodies', ()))
     except BuildError as e:
         res.update(status="error", error=str(e), secs=time.time() - t0)
         return res
